@@ -117,3 +117,11 @@ impl<K: ExpiredKey<E>, E: Expiration, V: Copy> KeyExpList<K, E, V> {
         self.min_exp = new_min_exp;
     }
 }
+
+#[cfg(itree_verif)]
+impl<K: ExpiredKey<E>, E: Expiration, V: Copy> KeyExpList<K, E, V> {
+    /// Read-only copy of the buffer and the cached earliest expiration (verification hook).
+    pub fn verif_snapshot(&self) -> (Vec<(K, V)>, E) {
+        (self.buffer.iter().map(|e| (e.key, e.val)).collect(), self.min_exp)
+    }
+}
